@@ -11,7 +11,73 @@ def make(tier):
     P.not_decided += ['grid::interpolate, output, static_row helpers', 'resize/map/apply/fill on heap storage are bounded checks (B), see bounded_checks']
     for N in (1, 2, 3):
         make_scalar(P, N, tier)
+    for N in (2, 3):
+        make_refiter(P, N, tier)
     return P
+
+
+def make_refiter(P, N, tier):
+    """pos_ref_iterator over the real grid::object<int, N> iterator type, on a static cell array (no heap):
+    one ++ / * step from an arbitrary in-range position of an arbitrary sub-range [m, s) of a grid of size d."""
+    tag = 'ref%d' % N
+    R = range(N)
+    B = 16 if N == 3 else 64
+    cells = B ** N
+    pr = lambda p: ', '.join('std::size_t %s%d' % (p, i) for i in R)
+    v = lambda p: ', '.join('%s%d' % (p, i) for i in R)
+    shim = '''#include <cstddef>
+#include <fcppt/container/grid/object.hpp>
+#include <fcppt/container/grid/pos_ref_iterator_decl.hpp>
+#include <fcppt/container/grid/pos_ref_iterator_impl.hpp>
+#include <fcppt/container/grid/pos_reference.hpp>
+#include <fcppt/container/grid/min.hpp>
+#include <fcppt/container/grid/sup.hpp>
+#include <fcppt/math/vector/at.hpp>
+namespace g = fcppt::container::grid;
+using grid = g::object<int, %(N)d>;
+using pos = grid::pos;
+using dim = grid::dim;
+using it_t = g::pos_ref_iterator<grid>;
+static int cells[%(cells)d];
+extern "C" void vf_refiter_step_%(tag)s(%(Pp)s, %(Pm)s, %(Ps)s, %(Pd)s, std::size_t *outpos, std::size_t *outoff, std::size_t *outoff0){
+  it_t it{grid::iterator{cells}, it_t::pos_iterator{pos{%(p)s}, g::min<std::size_t, %(N)d>{pos{%(m)s}}, g::sup<std::size_t, %(N)d>{pos{%(s)s}}}, dim{%(d)s}};
+  { auto const r0 = *it; *outoff0 = static_cast<std::size_t>(&r0.value() - cells); }
+  ++it;
+  auto const r = *it;
+  %(put)s
+  *outoff = static_cast<std::size_t>(&r.value() - cells);
+}
+''' % dict(N=N, tag=tag, cells=cells, Pp=pr('p'), Pm=pr('m'), Ps=pr('s'), Pd=pr('d'), p=v('p'), m=v('m'), s=v('s'), d=v('d'),
+           put=' '.join('outpos[%d] = fcppt::math::vector::at<%d>(r.pos());' % (i, i) for i in R))
+
+    def succ(i):
+        carry_in = ' && '.join('p%d + 1 == s%d' % (j, j) for j in range(i)) or '1'
+        carry_out = ' && '.join('p%d + 1 == s%d' % (j, j) for j in range(i + 1))
+        if i == N - 1:
+            return '((%s) ? p%d + 1 : p%d)' % (carry_in, i, i)
+        return '((%s) ? m%d : ((%s) ? p%d + 1 : p%d))' % (carry_out, i, carry_in, i, i)
+
+    def off(c):
+        e = c(0)
+        stack = 'd0'
+        for i in range(1, N):
+            e = '(%s + %s * %s)' % (e, c(i), stack)
+            stack = '(%s * d%d)' % (stack, i)
+        return e
+    spec = 'function vf_refiter_step_%s\n' % tag
+    spec += '  __CPROVER_requires(__CPROVER_is_fresh(outpos, %d) && __CPROVER_is_fresh(outoff, 8) && __CPROVER_is_fresh(outoff0, 8))\n' % (8 * N)
+    spec += '  __CPROVER_requires(%s)\n' % ' && '.join('m%d <= p%d && p%d < s%d && s%d <= d%d && d%d <= %d' % (i, i, i, i, i, i, i, B) for i in R)
+    spec += '  __CPROVER_requires(!(%s))\n' % ' && '.join('p%d + 1 == s%d' % (i, i) for i in R)
+    spec += '  __CPROVER_assigns(__CPROVER_object_whole(outpos), *outoff, *outoff0)\n'
+    spec += '  __CPROVER_ensures(%s)\n' % ' && '.join('outpos[%d] == %s' % (i, succ(i)) for i in R)
+    spec += '  __CPROVER_ensures(*outoff0 == %s)\n' % off(lambda i: 'p%d' % i)
+    spec += '  __CPROVER_ensures(*outoff == %s)\n' % off(lambda i: 'outpos[%d]' % i)
+    P.generated['%s.cpp' % tag] = shim
+    P.generated['%s.spec' % tag] = spec
+    u = P.unit(tag, '%s.cpp' % tag, specs=['%s.spec' % tag], inline=True)
+    u.contract('vf_refiter_step_%s' % tag, cls='B', bound='grid extents <= %d per dimension (static cell array of %d cells); positions, sub-range and extents otherwise symbolic' % (B, cells),
+               backends=['sat', 'cvc5', 'z3'], timeout=900,
+               what='pos_ref_iterator: * refers to the cell at storage offset offset(pos, size); ++ moves to the row-major successor inside the sub-range [min,sup) and * then refers to the cell of THAT position (one step from every in-range state)')
 
 
 def make_scalar(P, N, tier):
